@@ -7,6 +7,8 @@ TRUSTED_BASE = [
     "the hand-written Lean model of the functions named in the evidence (modelled, not verified; tied by T1 expressions, T2 digests and the T3 correspondence run)",
     "harness /verif/harness (Go): gating sequences arrivals, canonicalisation does not hide differences",
     "Go runtime semantics assumed by the model: channels FIFO, select picks any ready case, sync primitives as documented",
+    "transport assumed by the composite model Net: a gRPC stream is an ordered channel per connection that may lose a suffix and die at any moment; the server side of a dead connection delivers nothing to a later one",
+    "gx lock-set walk (syntactic, intra-procedural, deferred unlocks handled): the table of lock acquisitions, blocking operations and intra-package calls with the locks held",
 ]
 
 
@@ -57,7 +59,7 @@ PROPS = {
              "a 19-clause invariant is inductive; wedge_shapes: in every reachable state with an open manager in which something is owed and neither the library nor a well-behaved environment can move, the state has "
              "one of exactly two shapes (stale-broken, stream back-pressure) — a complete list; both shapes are stuck and both are reachable (explicit traces checked by the kernel): the two known findings; requests written to a stream that has died are never forgotten "
              "(lost_is_cancelled, parked_means_nothing_lost: whoever replaces a stream answers them first), whereas the pinned code reaches a quiet state with a request lost for good (pinned_leak_reachable). "
-             "Tie: the table of every lock acquisition, blocking operation and intra-package call with the locks held there (lock-set walk by gx, regenerated on every run): the lock order computed from it is exactly streamMut → responseMut, streamMut → mu and acyclic (lockOrder_good, lockOrder_acyclic), and every place where the tree can block while holding a lock is a step of ConnMgr / NodeConn / SrvConn (blocking_sites_modelled: the wedge analysis is complete with respect to the code's blocking sites). Further tie: isConnected, the give-up test and the three facts of the stream replacement (cancel under the write lock before the new stream, mark before SendMsg, unmarked requests skipped) regenerated from channel.go; digests of the twelve functions the LTS was written from; engine wedge: workload phases with cancellations, slow quorum functions and handlers, "
+             "Tie: the table of every lock acquisition, blocking operation and intra-package call with the locks held there (lock-set walk by gx, regenerated on every run): the lock order computed from it is exactly streamMut → responseMut, streamMut → mu and acyclic (lockOrder_good, lockOrder_acyclic; lockOrder_no_cycle: by the proved soundness of the evaluated check, no walk along the tree's lock order returns to its start), and every place where the tree can block while holding a lock is a step of ConnMgr / NodeConn / SrvConn (blocking_sites_modelled: the wedge analysis is complete with respect to the code's blocking sites); for the sites under streamMut the program counter that stands for the site holds exactly the lock and mode the table shows, in every reachable state of the LTS (Props/SitesP.lean: recvMsg_under_read, sendMsg_under_read, reconnect_under_write_*); these obligations live in Tie/C09Locks.lean, elaborated on its own. Further tie: isConnected, the give-up test and the three facts of the stream replacement (cancel under the write lock before the new stream, mark before SendMsg, unmarked requests skipped) regenerated from channel.go; digests of the twelve functions the LTS was written from; engine wedge: workload phases with cancellations, slow quorum functions and handlers, "
              "restarts, then a probe RPC per node; every hang is classified by goroutine signature; two deliberate replays reproduce the known findings; a burst of calls made with an already-ended context on healthy idle nodes "
              "(no stream fails there, so any node that stops answering is a violation whatever the shape).",
         note="Partial: relative to the model's list of shapes; real scheduling is not modelled; a new way to get stuck that is not in the LTS is caught by the digests and by an unknown signature in engine wedge.",
